@@ -49,6 +49,19 @@ def build_input(rng, cands):
     for e in st['entries']:
         while rng.random() < 0.3:
             items.append(('chat', gen_chatter(rng, msg_lines)))
+        if rng.random() < 0.06:
+            # what libwayland writes for a string argument with a line break in it (a window title, surrounding text): the
+            # message comes out torn over two or three lines, none of which is a message
+            head = re.sub(r'^(\[[^\]]*\])\s*(\{[^}]*\})?\s*(<[^>]*>)?.*$', r'\1 \2 \3', e['line']).rstrip() if rng.random() < 0.7 else '[%10.3f]' % (rng.randint(0, 4000000) / 1000.0)
+            sep = rng.choice('@#')
+            tear = rng.choice([['%s  -> xdg_toplevel%s7.set_title("first line', 'second line")'],
+                               ['%s zwp_text_input_v3%s9.set_surrounding_text("a', 'b', 'c", 1, 2)'],
+                               ['%s  -> wl_registry%s2.bind(1, "wl_', 'compositor", 4, new id [unknown]%s30)' % sep],
+                               ['%s wl_display%s1.error(wl_display%s1, 0, "invalid' % ('%s', '%s', sep), 'object 7")'],
+                               ['%s  -> xdg_toplevel%s7.set_app_id("', '")']])
+            group = [tear[0] % (head, sep)] + tear[1:]
+            if all(not LIBERAL.search(t.strip()) for t in group):
+                items += [('chat', t) for t in group]
         items.append(('msg', e))
     while rng.random() < 0.4:
         items.append(('chat', gen_chatter(rng, msg_lines)))
